@@ -6,7 +6,7 @@ From PG Require Import Common.Strs Units.Model Gen.UnitsTable.
 Import ListNotations.
 
 Definition BAD : Q := 99999999999999999999999999 # 1.
-Definition no_rpow (b e : Q) : Q := BAD.
+Definition no_rpow (b e : Q) : option Q := None.
 Definition no_extra (c : N) : bool := false.
 
 Definition db_base : udb :=
